@@ -1,5 +1,100 @@
-import Octo.Model.JsonPipe
+import Octo.Lemmas.JsonPipeMeasure
+/-!
+# C29 — protocol-level part: the JSON datasource pipeline neither deadlocks nor runs for ever
+
+The statements are about the transition system `Octo.JsonPipe` (`Octo/Model/JsonPipe.lean`), which mirrors the
+channel operations of `datasources/json/execution.go` and `workers.go`; `Reachable s` quantifies over every number
+of workers ≥ 1, every list of concurrently running datasources with arbitrary finite inputs, and EVERY schedule.
+Data races (Go memory model) are outside this model — see notes/C29.md.
+-/
 namespace Octo.C29
 open Octo.JsonPipe
-theorem placeholder : tokCap ≤ outCap := by decide
+
+theorem busyWith_pos {wk : Nat → Option Job} {n w : Nat} {j : Job} (hw : w < n) (h : wk w = some j) :
+    0 < busyWith wk j.pipe n := by
+  induction n with
+  | zero => omega
+  | succ n ih =>
+    simp only [busyWith]
+    by_cases hn : w = n
+    · subst hn; simp [h, jobCnt]
+    · have := ih (by omega); omega
+
+/-- **Token invariant.** In every reachable state, for every running datasource: every job between the reader's
+token acquisition and the consumer's token release, and every batch waiting in `outChan`, holds a token; there
+are never more than `cap(outChanAvailableTokens)` tokens; and as long as the run is not cancelled there are no
+other tokens. -/
+theorem token_invariant {s : State} (h : Reachable s) {p : Nat} (hp : p < s.np) :
+    inflight s p + (s.pipe p).out.length ≤ (s.pipe p).tokens ∧ (s.pipe p).tokens ≤ tokCap ∧
+    ((s.pipe p).cancelled = false → (s.pipe p).tokens = inflight s p + (s.pipe p).out.length) :=
+  ⟨(reachable_tokInv h).le p hp, (reachable_tokInv h).cap p hp, (reachable_tokInv h).eq p hp⟩
+
+/-- `outChan` never holds more batches than there are tokens, hence never more than its capacity. -/
+theorem outChan_bounded {s : State} (h : Reachable s) {p : Nat} (hp : p < s.np) : (s.pipe p).out.length ≤ outCap := by
+  have := token_invariant h hp
+  have := tokCap_le_outCap
+  omega
+
+/-- **A pool worker never blocks**: whenever a worker holds a parsed batch, its send
+`job.outChan <- outJobs` is enabled — whatever the consumer of that datasource is doing (slow, suspended inside
+`produce`, gone). This is why one datasource cannot wedge the global pool. -/
+theorem worker_never_blocks {s : State} (h : Reachable s) {w : Nat} {j : Job} (hw : w < s.nw)
+    (hj : s.worker w = some j) : (step s (.wSend w)).isSome = true := by
+  have ht := reachable_tokInv h
+  have hjp := ht.workersValid w j hj
+  have h1 := ht.le j.pipe hjp
+  have h2 := ht.cap j.pipe hjp
+  have h3 := busyWith_pos hw hj
+  have := tokCap_le_outCap
+  simp only [inflight] at h1
+  have hlen : (s.pipe j.pipe).out.length < outCap := by omega
+  simp [step, hj, hw, hlen]
+
+/-- The consumer's `<-outChanAvailableTokens` (outside any `select`) never blocks: after receiving a batch there
+is a token to take. -/
+theorem consumer_token_available {s : State} (h : Reachable s) {p : Nat} {j : Job} (hp : p < s.np)
+    (hc : (s.pipe p).cpc = .tok j) : (step s (.cTok p)).isSome = true := by
+  have h1 := (reachable_tokInv h).le p hp
+  simp only [inflight, hc, ctokCnt] at h1
+  have : 0 < (s.pipe p).tokens := by omega
+  simp [step, hc, hp, this]
+
+/-- With a single running datasource the reader's `parserWorkReceiveChannel <- job` (outside any `select`) never
+blocks either: the job channel holds at most as many jobs as there are tokens. -/
+theorem submit_never_blocks_single {s : State} (h : Reachable s) (h1 : s.np = 1)
+    (hr : (s.pipe 0).rpc = .hold) : (step s (.rSub 0)).isSome = true := by
+  have ht := reachable_tokInv h
+  have hle := ht.le 0 (by omega)
+  have hcap := ht.cap 0 (by omega)
+  have hall : inJobs s.jobs 0 = s.jobs.length := by
+    have : ∀ j, j ∈ s.jobs → j.pipe = 0 := fun j hj => by have := ht.jobsValid j hj; omega
+    unfold inJobs
+    rw [List.filter_eq_self.mpr]
+    intro j hj; simp [this j hj]
+  simp only [inflight, hr, holdCnt, if_true] at hle
+  have := tokCap_le_jobCap
+  have hlen : s.jobs.length < jobCap := by omega
+  simp [step, hr, h1, hlen]
+
+/-- **Variant.** Every action strictly decreases `measure`. -/
+theorem every_step_decreases {s s' : State} {a : Action} (h : Reachable s) (hs : step s a = some s') :
+    measure s' < measure s :=
+  step_measure (reachable_tokInv h) (reachable_pinv h) hs
+
+/-- **Termination.** From a reachable state no schedule — whatever the interleaving, with or without
+cancellation, LIMIT or errors — is longer than `measure s`. -/
+theorem schedules_are_finite {s t : State} {sched : List Action} (h : Reachable s) (hr : run s sched = some t) :
+    sched.length + measure t ≤ measure s := by
+  induction sched generalizing s with
+  | nil => simp only [run, Option.some.injEq] at hr; subst hr; simp
+  | cons a as ih =>
+    simp only [run] at hr
+    cases hsa : step s a with
+    | none => simp [hsa] at hr
+    | some s' =>
+      simp only [hsa] at hr
+      have := ih (reachable_step h hsa) hr
+      have := every_step_decreases h hsa
+      simp only [List.length_cons]; omega
+
 end Octo.C29
